@@ -191,7 +191,7 @@ def spec_table():
 def gates(tier):
     return {'constructions': 3000, 'in_domain_accepted': 500, 'out_of_domain_rejected': 1200, 'defaults_checked': 300,
             'unknown_key_cases': 30, 'cross_rule_cases': 40, 'answers_format_cases': 30, 'reconstruction_cases': 300,
-            'kwargs_dict_equivalence_cases': 300, 'classes_covered': 30, 'multi_option_cases': 500}
+            'kwargs_dict_equivalence_cases': 300, 'classes_covered': 30, 'multi_option_cases': 500, 'defaults_beside_registrations': 15}
 
 
 def is_validation_error(exc):
@@ -634,9 +634,57 @@ def run_answers(ctx):
             ctx.violation('C20:reconstruction_fails:' + name, repr(exc)[:200], {'format': name})
 
 
+def run_defaults_beside_registrations(ctx):
+    """Documented defaults hold for every option NOT registered for the class, whatever has been registered -- from one shared
+    dictionary or separately -- on the class itself and on unrelated classes (docs/plugins.md)."""
+    T = spec_table()
+    rng = ctx.rng
+    graders = [(n, sp) for n, sp in T.items() if sp['kind'] == 'grader' and not sp.get('positional_required')]
+    for rep in range(ctx.pick(12, 80)):
+        (tn, tsp), (on, osp) = rng.sample(graders, 2)
+        tcls, ocls = tsp['cls'], osp['cls']
+        if issubclass(tcls, ocls) or issubclass(ocls, tcls):
+            continue            # (a class's registered defaults reach its subclasses by design)
+        shared = {'debug': True}
+        other_only = rng.choice([o for o in osp['options'] if o != 'debug'])
+        good = osp['options'][other_only][1][0]
+        if not good:
+            continue
+        later = {other_only: rng.choice(good)}
+        wit = {'class': tn, 'shared_dictionary_registered_on': [tn, on], 'then_registered_on_%s' % on: repr(later)[:120]}
+        try:
+            order = [tcls, ocls]
+            rng.shuffle(order)
+            for c in order:
+                c.register_defaults(shared)
+            ocls.register_defaults(later)
+            ctx.count('defaults_beside_registrations')
+            try:
+                obj = construct(tcls, tsp, {})
+            except Exception as exc:  # noqa
+                ctx.violation('C20:%s:registered_elsewhere:default_construction_fails' % tn, repr(exc)[:200], wit)
+                continue
+            ctx.ev()
+            ctx.count('constructions')
+            skip = set(tsp.get('skip_config_defaults', []))
+            for opt, (default, pools) in tsp['options'].items():
+                if opt == 'debug' or opt not in obj.config or (opt in skip and not isinstance(default, str)):
+                    continue
+                ctx.count('defaults_checked')
+                if not same_default(obj.config[opt], default):
+                    ctx.violation('C20:%s:registered_elsewhere:default:%s' % (tn, opt),
+                                  'default of %r is %r, documented %r' % (opt, obj.config[opt], default), dict(wit, option=opt))
+            if obj.config.get('debug') is not True:
+                ctx.violation('C20:%s:registered_default_not_applied' % tn, 'debug=%r' % obj.config.get('debug'), wit)
+        finally:
+            tcls.clear_registered_defaults()
+            ocls.clear_registered_defaults()
+
+
 def run(ctx):
     run_tables(ctx)
     if ctx.shard % 4 == 0:
+        run_defaults_beside_registrations(ctx)
         run_cross_rules(ctx)
         run_answers(ctx)
     if ctx.shard == 0:
